@@ -12,7 +12,7 @@ def claim(pid, engine, technique, text, note, ref):
     CLAIMS[pid] = dict(engine=engine, technique=technique, text=text, note=note, ref=ref)
 
 exec(open(f"{ROOT}/tools/claims.py").read())
-for _name in ("ROUND3", "ROUND4", "ROUND5"):
+for _name in ("ROUND3", "ROUND4", "ROUND5", "ROUND6"):
     for _pid, _txt in globals().get(_name, {}).items():
         if _pid in CLAIMS:
             CLAIMS[_pid]["text"] += " " + _txt
